@@ -25,6 +25,9 @@ def check(run):
     chain(run, p)
     dkeys(run, p)
     types(run, p)
+    from .. import ief, triage
+    ief.run_ief(run, 'C16', [p.fn('tdda.serial.reader.csv2pandas'), p.fn('tdda.serial.pandasio.gen_pandas_kwargs')], triage=triage.IEF)
+    run.floor('C16-IEF', run.units['ief_functions_checked'], 20)
 
 
 def chain(run, p):
